@@ -31,3 +31,26 @@ add("C02", "exploration", "property-based testing (Hypothesis): same runtime har
     "component, failed stage, others in rule state or shut down; and schedules agree. One open known finding (observer "
     "of a shut-down subject) is excluded by signature.", _RT_NOTE + " Liveness is only checked as bounded quiescence.",
     "DESIGN.md section 3, C02")
+
+add("C09", "exploration", "property-based testing (Hypothesis): grammar-built reference strings and name-set 'worlds'; "
+    "round-trip, idempotence, relative/absolute differential and an independent classifier as oracles",
+    "References are built by construction from stage prefixes, confusable producer names (dots, dashes, digits, loop "
+    "prefixes), nested paths and all methods, under generated sets of components, application dependencies and manifest "
+    "keys. Checked: print(parse(r)) == r, expansion idempotent, relative and absolute spellings agree in "
+    "DataReference/ComponentIdentifier, an independent classifier written from the statement agrees with "
+    "ParseDataReferenceFull / is_datareference_to_component / expand_component_references / Manifest.top_level_folders, "
+    "and FlowIRConcrete.validate + package loading accept folder references. Held on everything generated.",
+    "Single-segment absolute paths and component names that equal a folder name (documented as unsupported) are outside "
+    "the asserted domain; copyout references are kept out of command lines (tokeniser ambiguity noted for C10/C11).",
+    "DESIGN.md section 3, C09")
+add("C14", "fault_enumeration", "property-based testing with fault injection (Hypothesis): generated update histories; "
+    "every write boundary of one update enumerated in forked children that die (os._exit) or raise OSError there; "
+    "round-trip read-back oracle",
+    "For status.txt, output.txt/json, status_details.json, flowir_instance.yaml and manifest.yaml the real writers run "
+    "under shims that count open/write/flush/close/rename boundaries; for each boundary and fault kind (die, "
+    "die-after-flush, OSError, partial write + OSError) a forked child re-runs the update and the file must afterwards be "
+    "the complete previous or new version and load with the repository's loader; fault-free histories of 1-6 updates "
+    "with hostile characters must read back exactly.",
+    "Process death / I/O errors are injected at Python-level boundaries (not power loss or page-cache reordering); for "
+    "FlowIR dumps with hundreds of emitter writes the write boundaries are sampled (counts in evidence).",
+    "DESIGN.md section 3, C14")
